@@ -46,6 +46,7 @@ func loadEngine(repo string) (*Engine, error) {
 	if err != nil {
 		return nil, err
 	}
+	e.schemaText = string(schema)
 	if e.docSchema, err = parseSchemaTable(string(schema), "documents"); err != nil {
 		return nil, err
 	}
